@@ -276,7 +276,7 @@ pub enum FormatMetaError {
     OptionNotIdentifier(String, Meta),
     #[error("line width must be a positive integer, but found {0}")]
     WidthOutOfRange(i64),
-    #[error("indentation width must be a positive integer, but found {0}")]
+    #[error("indentation width must be an integer between 1 and 255, but found {0}")]
     IndentOutOfRange(i64),
     #[error("unknown layout policy `{0}`; expected preserve, blank_lines, or ignore")]
     UnknownLayout(String),
